@@ -85,9 +85,11 @@ fn build(sel: &[usize], n: usize, s: &mut String, v: &mut [char; 3]) {
     }
 }
 
-/// kernels on every string of <= 2 characters over the alphabet x every cursor in [0, #chars] x both word modes:
-/// the result is a *character* index in [0, #chars] and equals the reference motion; count_chars_bytes agrees
-/// with the UTF-8 layout; insert/remove at a character index produce the reference string.
+/// kernels on every string of exactly N characters over the alphabet x every cursor in [0, N] (both enumerated
+/// concretely: a symbolic cursor turns `char_indices().skip(cursor)` / `chars().nth(cursor)` into intractable
+/// loops -- measured) x both word modes x every inserted character (symbolic): the result is a *character*
+/// index in [0, #chars] and equals the reference motion; count_chars_bytes agrees with the UTF-8 layout;
+/// insert/remove at a character index produce the reference string.
 macro_rules! kernels_for {
     ($name:ident, $len:expr) => {
         #[kani::proof]
@@ -95,51 +97,58 @@ macro_rules! kernels_for {
         #[kani::stub(char::is_whitespace, stub_is_whitespace)]
         #[kani::stub(char::is_alphanumeric, stub_is_alphanumeric)]
         fn $name() {
-            let cursor: usize = kani::any();
             let full_word: bool = kani::any();
             let ins_sel: usize = kani::any();
             kani::assume(ins_sel < 5);
-            kani::assume(cursor <= $len);
+            let ch = match ins_sel { 0 => 'a', 1 => ' ', 2 => '+', 3 => '\u{e9}', _ => '\u{1F600}' };
             let n: usize = $len;
             let mut sel = [0usize; 3];
-            // enumerate all 5^n strings concretely
             let total: usize = if n == 0 { 1 } else if n == 1 { 5 } else if n == 2 { 25 } else { 125 };
             let mut idx = 0;
             while idx < total {
                 sel[0] = idx % 5;
                 sel[1] = (idx / 5) % 5;
                 sel[2] = (idx / 25) % 5;
-                let mut s = String::new();
-                let mut v = ['\0'; 3];
-                build(&sel, n, &mut s, &mut v);
-                let chars = &v[..n];
+                let mut cursor = 0;
+                while cursor <= n {
+                    let mut s = String::new();
+                    let mut v = ['\0'; 3];
+                    build(&sel, n, &mut s, &mut v);
+                    let chars = &v[..n];
 
-                let nx = find_word_next(&s, cursor, full_word);
-                assert!(nx <= n, "Ctrl+Right leaves the cursor beyond the end of the line (byte index used as character index)");
-                assert!(nx == spec_word_next(chars, cursor, full_word), "Ctrl+Right does not move to the start of the next word");
-                let bk = find_word_back(&s, cursor, full_word);
-                assert!(bk <= n && bk == spec_word_back(chars, cursor, full_word), "Ctrl+Left does not move to the start of the previous word");
+                    let nx = find_word_next(&s, cursor, full_word);
+                    assert!(nx <= n, "Ctrl+Right leaves the cursor beyond the end of the line (byte index used as character index)");
+                    assert!(nx == spec_word_next(chars, cursor, full_word), "Ctrl+Right does not move to the start of the next word");
+                    let bk = find_word_back(&s, cursor, full_word);
+                    assert!(bk <= n && bk == spec_word_back(chars, cursor, full_word), "Ctrl+Left does not move to the start of the previous word");
 
-                let (bi, cc) = count_chars_bytes(&s, cursor);
-                let mut want_bi = 0;
-                let mut q = 0;
-                while q < cursor && q < n {
-                    want_bi += chars[q].len_utf8();
-                    q += 1;
+                    let (bi, cc) = count_chars_bytes(&s, cursor);
+                    let mut want_bi = 0;
+                    let mut q = 0;
+                    while q < cursor && q < n {
+                        want_bi += chars[q].len_utf8();
+                        q += 1;
+                    }
+                    assert!(cc == n && bi == want_bi, "character index -> byte index conversion wrong");
+
+                    // insert at the cursor, then remove it again: text round-trips, the inserted character sits at `cursor`
+                    insert_char_index(&mut s, cursor, ch);
+                    let (bi2, cc2) = count_chars_bytes(&s, cursor + 1);
+                    assert!(cc2 == n + 1 && bi2 == want_bi + ch.len_utf8(), "inserted character not at the cursor");
+                    let removed = remove_char_index(&mut s, cursor);
+                    assert!(removed == ch && s.len() == {
+                        let mut t = 0;
+                        let mut q = 0;
+                        while q < n { t += chars[q].len_utf8(); q += 1; }
+                        t
+                    }, "remove at the cursor does not undo the insert");
+                    core::mem::forget(s);
+                    cursor += 1;
                 }
-                assert!(cc == n && bi == want_bi, "character index -> byte index conversion wrong");
-
-                // insert at the cursor, then remove it again: text round-trips, and the inserted character sits at `cursor`
-                let ch = ALPHABET[ins_sel];
-                let before = s.clone();
-                insert_char_index(&mut s, cursor, ch);
-                assert!(s.chars().count() == n + 1 && s.chars().nth(cursor) == Some(ch), "inserted character not at the cursor");
-                let removed = remove_char_index(&mut s, cursor);
-                assert!(removed == ch && s == before, "remove at the cursor does not undo the insert");
                 idx += 1;
             }
-            kani::cover!(cursor == $len && full_word);
-            kani::cover!(cursor == 0 && !full_word);
+            kani::cover!(full_word && ins_sel == 4);
+            kani::cover!(!full_word && ins_sel == 1);
         }
     };
 }
@@ -212,3 +221,126 @@ fn c20_next_command_split_len2() {
 fn c20_next_command_split_len3() {
     split_body(3);
 }
+
+// ------------------------------------------------------------------ one handle_key step from every valid editor state
+// States: every buffer of exactly N characters over the alphabet x every cursor in [0, N] (enumerated concretely,
+// see above), empty history.  One key of the harness's kind (the inserted character is symbolic).  Asserted: no
+// panic, the cursor stays within [0, #chars], and buffer + cursor equal the reference editor's.  One step from
+// every valid state of the bound covers key sequences of any length that stay within the bound.
+#[derive(Clone, Copy, PartialEq)]
+enum K {
+    Char,
+    Backspace,
+    Delete,
+    Left,
+    Right,
+    CtrlLeft,
+    CtrlRight,
+    Up,
+    Down,
+    Enter,
+}
+
+fn handle_key_body(kind: K, n: usize) {
+    let ins_sel: usize = kani::any();
+    kani::assume(ins_sel < 5);
+    let ch = match ins_sel { 0 => 'a', 1 => ' ', 2 => '+', 3 => '\u{e9}', _ => '\u{1F600}' };
+    let mut sel = [0usize; 3];
+    let total: usize = if n == 0 { 1 } else if n == 1 { 5 } else if n == 2 { 25 } else { 125 };
+    let mut idx = 0;
+    while idx < total {
+        sel[0] = idx % 5;
+        sel[1] = (idx / 5) % 5;
+        sel[2] = (idx / 25) % 5;
+        let mut cursor = 0;
+        while cursor <= n {
+            let mut s = String::new();
+            let mut v = ['\0'; 3];
+            build(&sel, n, &mut s, &mut v);
+            let chars = &v[..n];
+            let mut t = Terminal {
+                stderr: io::stderr(),
+                buffer: s,
+                cursor: 0,
+                visible_cursor: cursor,
+                history: TerminalHistory { list: Vec::new(), index: 0, file: None },
+            };
+            let key = match kind {
+                K::Char => Key::Char(ch),
+                K::Backspace => Key::Backspace,
+                K::Delete => Key::Delete,
+                K::Left => Key::Left,
+                K::Right => Key::Right,
+                K::CtrlLeft => Key::CtrlLeft,
+                K::CtrlRight => Key::CtrlRight,
+                K::Up => Key::Up,
+                K::Down => Key::Down,
+                K::Enter => Key::Enter,
+            };
+            let submitted = t.handle_key(key);
+            // reference editor
+            let mut want_len = n;
+            let mut want_cursor = cursor;
+            let mut want_submit = false;
+            let blank = {
+                let mut b = true;
+                let mut q = 0;
+                while q < n { if chars[q] != ' ' { b = false; } q += 1; }
+                b
+            };
+            match kind {
+                K::Char => { want_len = n + 1; want_cursor = cursor + 1; }
+                K::Backspace => if cursor > 0 { want_len = n - 1; want_cursor = cursor - 1; },
+                K::Delete => if cursor < n { want_len = n - 1; },
+                K::Left => if cursor > 0 { want_cursor = cursor - 1; },
+                K::Right => if cursor < n { want_cursor = cursor + 1; },
+                K::CtrlLeft => want_cursor = spec_word_back(chars, cursor, false),
+                K::CtrlRight => want_cursor = spec_word_next(chars, cursor, false),
+                K::Up | K::Down => (),
+                K::Enter => if blank { want_len = 0; want_cursor = 0; } else { want_submit = true; },
+            }
+            let (_, got_len) = count_chars_bytes(&t.buffer, 0);
+            assert!(t.visible_cursor <= got_len, "cursor outside the edited line after a key");
+            assert!(got_len == want_len && t.visible_cursor == want_cursor && submitted == want_submit,
+                "line / cursor / submission differ from the reference editor after one key");
+            if kind == K::Char {
+                let (bi, _) = count_chars_bytes(&t.buffer, cursor);
+                let mut want_bi = 0;
+                let mut q = 0;
+                while q < cursor { want_bi += chars[q].len_utf8(); q += 1; }
+                assert!(bi == want_bi && t.buffer.len() == {
+                    let mut tot = ch.len_utf8();
+                    let mut q = 0;
+                    while q < n { tot += chars[q].len_utf8(); q += 1; }
+                    tot
+                }, "typed character not inserted at the cursor");
+            }
+            core::mem::forget(t);
+            cursor += 1;
+        }
+        idx += 1;
+    }
+    kani::cover!(ins_sel == 3);
+}
+
+macro_rules! handle_key {
+    ($name:ident, $kind:expr, $n:expr) => {
+        #[kani::proof]
+        #[kani::unwind(8)]
+        #[kani::stub(char::is_whitespace, stub_is_whitespace)]
+        #[kani::stub(char::is_alphanumeric, stub_is_alphanumeric)]
+        fn $name() {
+            handle_key_body($kind, $n);
+        }
+    };
+}
+handle_key!(c20_key_char_len1, K::Char, 1usize);
+handle_key!(c20_key_backspace_len2, K::Backspace, 2usize);
+handle_key!(c20_key_delete_len2, K::Delete, 2usize);
+handle_key!(c20_key_left_right_len1, K::Left, 1usize);
+handle_key!(c20_key_right_len1, K::Right, 1usize);
+handle_key!(c20_key_ctrl_left_len2, K::CtrlLeft, 2usize);
+handle_key!(c20_key_ctrl_right_len2, K::CtrlRight, 2usize);
+handle_key!(c20_key_up_len1, K::Up, 1usize);
+handle_key!(c20_key_down_len1, K::Down, 1usize);
+handle_key!(c20_key_enter_len2, K::Enter, 2usize);
